@@ -27,7 +27,9 @@ ASSUMPTIONS = [
     "A-CLOCK monotonic() is non-decreasing",
     "A-PYVER sys.version_info comparisons are evaluated for CPython 3.12 (the interpreter of the repository's test suite)",
     "A-FAIR a thread whose wake-up event is set is eventually scheduled (liveness is reduced to wake-order safety obligations)",
-    "A-STDLIB stdlib base-class constructors / Executor.shutdown / Thread / Event / RLock behave as documented (modelled, not verified)",
+    "A-STDLIB stdlib base-class constructors / Executor.shutdown / Thread / Event / RLock / Condition / weakref / partial / namedtuple behave as documented (modelled, not verified); "
+    "the MODEL of concurrent.futures.Future itself is no longer assumed: contracts/c_stdlib.py proves, on every run, that the real methods of concurrent/futures/_base.py of the "
+    "suite's interpreter refine it (sequentially per method; atomicity from `with self._condition`, checked statically)",
 ]
 
 
